@@ -883,6 +883,7 @@ func (state *RuntimeState) checkAuth(w http.ResponseWriter, r *http.Request, req
 			state.logger.Debugf(3, "ref =%s, host=%s", referer, r.Host)
 			refererURL, err := url.Parse(referer)
 			if err != nil {
+				state.writeFailureResponse(w, r, http.StatusBadRequest, "")
 				return nil, err
 			}
 			state.logger.Debugf(3, "refHost =%s, host=%s",
